@@ -137,6 +137,8 @@ def cmd_coq(c):
         return "CRead %s" % zl(c[1])
     if k == "fail":
         return "CFail"
+    if k == "compabort":
+        return "CFail"      # a comprehension whose variable has the name of a session definition, aborted by an error: no effect, the error
     if k == "loopshadow":
         return "CFail"      # a loop over a variable that has the name of a session definition, aborted by an error: no effect, the error
     if k == "syntax":
@@ -166,6 +168,13 @@ def cmd_src(c):
         return vname(c[1])
     if k == "fail":
         return "error 'boom'"
+    if k == "compabort":
+        v = vname(c[1])
+        forms = ["[if %s == 4 then error 'boom' else %s for zq in [1] for %s in [3, 4]]", "[if %s == 4 then error 'boom' else %s for %s in [3, 4]]",
+                 "<<if %s == 4 then error 'boom' else %s for %s in [3, 4]>>", "<<<%s => if %s == 4 then error 'boom' else 1 for %s in [3, 4]>>>",
+                 "[if %s == 4 then error 'boom' else %s for zq in [1, 2] also for %s in [3, 4]]", "<<if %s == 4 then error 'boom' else %s for zq in [1] for %s in [3, 4]>>",
+                 "[if %s == 4 then error 'boom' else %s for %s in [3, 4] for zq in [1]]"]
+        return forms[c[2] % len(forms)] % (v, v, v)
     if k == "loopshadow":
         return "for %s in [1, 2, 3] do if %s == 2 then error 'boom' end" % (vname(c[1]), vname(c[1]))
     if k == "syntax":
